@@ -11,7 +11,7 @@ import (
 	rt "github.com/Azbesciak/RealDecisionMaker/lib/zz_verifrt"
 )
 
-//verif:bounds C03 HC03_owa: K<=3 (quick) / K<=4 (thorough) criteria, A<=2 alternatives, weights in [-4,4] and values free reals, every ordering and tie of weights and values; parameters through ParseParams
+//verif:bounds C03 HC03_owa: K<=3 (quick) / K<=4 (thorough) criteria, A=2 alternatives (A=1 at K=4), weights in [-4,4] and values free reals, every ordering and tie of weights and values; parameters through ParseParams
 
 // ascending selection sort (independent of the implementation's insertion sort; its comparisons
 // are decided by the path the implementation has taken)
@@ -31,7 +31,11 @@ func c03sortAsc(v []float64) []float64 {
 func HC03_owa() {
 	K := rt.IntRange("K", 1, rt.Pick(3, 4))
 	crit := vh.Criteria(K, "")
-	known := vh.Alternatives("", vh.AltIds[:2], crit)
+	chose := []string{"b", "a"}
+	if K == 4 {
+		chose = []string{"a"} // thorough tier: at K=4 one alternative (the aggregate clause); rankings of two are covered at K<=3
+	}
+	known := vh.Alternatives("", vh.AltIds[:len(chose)], crit)
 	w := map[string]interface{}{}
 	var ws []float64
 	for _, c := range crit {
@@ -39,7 +43,7 @@ func HC03_owa() {
 		w[c.Id] = x
 		ws = append(ws, x)
 	}
-	dm := &model.DecisionMaker{PreferenceFunction: "owa", KnownAlternatives: known, ChoseToMake: []string{"b", "a"}, Criteria: crit,
+	dm := &model.DecisionMaker{PreferenceFunction: "owa", KnownAlternatives: known, ChoseToMake: chose, Criteria: crit,
 		MethodParameters: map[string]interface{}{"weights": w}}
 	f := &OWAPreferenceFunc{}
 	dmp := vh.Params(known, dm.ChoseToMake, crit, f.ParseParams(dm))
